@@ -24,17 +24,18 @@ let scenario ts = let c = { rest = ts } in
 let pcall ((k, sz), ok) = String.concat " " [pn k; pn sz; pbool ok]
 let poobs o = String.concat " " (["|"; pn o.o_kind; Printf.sprintf "%x" (List.length o.o_calls)] @ List.map pcall o.o_calls @
   [pn o.o_amod; pn o.o_ovl; pn o.o_off; pn o.o_req; pn o.o_nk; pn o.o_nv; pbytes o.o_dig; pn o.o_total; pn o.o_rep])
-let pobs o = String.concat " " ([pbool o.ob_guard; pn o.ob_ns; pbool o.ob_wrap] @ List.map poobs o.ob_ops @
-  ["|"; ":end"; Printf.sprintf "%x" (List.length o.ob_end_live)] @ List.concat_map (fun (i, d) -> [pn i; pbytes d]) o.ob_end_live @ [pn o.ob_end_total; pn o.ob_end_rep])
+let pobs o = String.concat " " ([pbool o.ob_guard; pn o.ob_ns; pbool o.ob_wrap; pbool o.ob_faults] @ List.map poobs o.ob_ops @
+  ["|"; ":end"; Printf.sprintf "%x" (List.length o.ob_end_live)] @ List.concat_map (fun (i, d) -> [pn i; pbytes d]) o.ob_end_live @
+  [pn o.ob_end_total; pn o.ob_end_rep; pn o.ob_end_leak])
 let run_line ts = let s = scenario ts in if not (valid s) then raise (Bad "invalid scenario") else pobs (run s)
 let parse_obs os = let c = { rest = os } in
-  let g = bool_tok (next c) in let ns = n_tok (next c) in let w = bool_tok (next c) in
+  let g = bool_tok (next c) in let ns = n_tok (next c) in let w = bool_tok (next c) in let fl = bool_tok (next c) in
   let rec go acc =
     if next c <> "|" then raise (Bad "obs: expected |") else
     if peek c = Some ":end" then (ignore (next c);
       let lv = counted c (fun c -> let i = n_tok (next c) in let d = bytes_tok (next c) in (i, d)) in
-      let t = n_tok (next c) in let r = n_tok (next c) in
-      { ob_guard = g; ob_ns = ns; ob_wrap = w; ob_ops = List.rev acc; ob_end_live = lv; ob_end_total = t; ob_end_rep = r })
+      let t = n_tok (next c) in let r = n_tok (next c) in let lk = n_tok (next c) in
+      { ob_guard = g; ob_ns = ns; ob_wrap = w; ob_faults = fl; ob_ops = List.rev acc; ob_end_live = lv; ob_end_total = t; ob_end_rep = r; ob_end_leak = lk })
     else begin
       let kind = n_tok (next c) in
       let calls = counted c (fun c -> let k = n_tok (next c) in let sz = n_tok (next c) in let ok = bool_tok (next c) in ((k, sz), ok)) in
